@@ -214,6 +214,7 @@ def run(chk):
                 chk.count("beeper-rows")
     else:
         chk.undecided_("anchor/ZXBeeper::gen_sample", "%s" % GS)
+    gen_sample_rule(chk, prog, MIX, GS)
     # writers / consumers
     short_ = lambda p: p.split("::")[-1]
     names_ = cc.Names(prog)
@@ -302,6 +303,88 @@ def run(chk):
     chk.rule("T-INV/float", "interval analysis of AymPrecise::process: phase accumulator in [0,1) at every interpolation use and at return, for every step up to clock/(8000*64)")
     floatinv.phase_accumulator(chk, prog)
     return chk.finish(EXPL)
+
+
+def gen_sample_rule(chk, prog, MIX, beeper_gs):
+    """ZXMixer::gen_sample as a term over the device samples: for every (use_beeper, use_ay) the queued sample is, per
+    channel, the sum of exactly the enabled devices' samples of that channel in which every device term passes through
+    exactly one multiplication by the master volume (the volume bounds the output; volume 0 is silence), narrowed to
+    f32; the same value is remembered as last_sample (the padding value)."""
+    chk.rule("T-TERM", "ZXMixer::gen_sample: per channel, sum of the enabled devices, each term scaled once by master_volume; last_sample = result")
+    GEN = prog.fn_path("rustzx_core", "ZXMixer::gen_sample")
+    fi = lambda n: prog.field_index(MIX, n)
+    AYGS = [p for p in prog.fns if p.startswith("<rustzx_core::") and "ZXAyChip" in p and p.endswith("::gen_sample")]
+    if len(beeper_gs) != 1 or len(AYGS) != 1:
+        chk.undecided_("anchor/ZXMixer::gen_sample/devices", "beeper %s ay %s" % (beeper_gs, AYGS))
+        return
+    SS = None
+    for a in prog.adts:
+        if a.endswith("::SoundSample"):
+            SS = a
+    src = {beeper_gs[0]: ("B.l", "B.r"), AYGS[0]: ("A.l", "A.r")}
+    VOL = tm.sym("mix.master_volume", 64)
+
+    def leaves(t, nmul, out, bad):
+        """collect (source symbol, number of volume multiplications on the way) below sums / casts"""
+        if not isinstance(t, T):
+            bad.append(repr(t))
+            return
+        if t.op.startswith("app:FloatToFloat") or t.op.startswith("app:FloatCast") or t.op.startswith("app:fcast"):
+            return leaves(t.args[0], nmul, out, bad)
+        if t.op == "app:fAdd":
+            for a in t.args:
+                leaves(a, nmul, out, bad)
+            return
+        if t.op == "app:fMul" and VOL in t.args and len(t.args) == 2:
+            other = t.args[1] if t.args[0] is VOL else t.args[0]
+            return leaves(other, nmul + 1, out, bad)
+        if t.op == "sym":
+            out.append((t.args[0], nmul))
+            return
+        c = fconst(t)
+        if c == 0.0:
+            return
+        bad.append(tm.show(t)[:80])
+
+    for ub in (0, 1):
+        for ua in (0, 1):
+            w = Walker(prog)
+            w.opaque_paths |= set(src)
+
+            def hook(w_, st, path, a, d, wh):
+                if path in src:
+                    l, r = src[path]
+                    f = [tm.sym(l, 64), tm.sym(r, 64)]
+                    return EffectResult(Agg(("adt", SS), 0, f), havoc=False)
+                return None
+            w.effect_hook = hook
+            st = w.new_state()
+            mx = w.materialise(SymObj("mix", ("adt", MIX, ())), st)
+            mx = mx.with_field(fi("use_beeper"), K(ub, 1)).with_field(fi("use_ay"), K(ua, 1))
+            st.store[("h", "mix")] = mx
+            rs = w.run(prog.fn(GEN), [Ref(("h", "mix"), (), True)], genv={}, state=st)
+            key = "T-TERM/ZXMixer::gen_sample/beeper=%d,ay=%d" % (ub, ua)
+            if len(rs) != 1 or rs[0].outcome != "return" or not isinstance(rs[0].ret, Agg):
+                chk.fail(key + "/paths", "gen_sample does not take one course per device configuration: %s" % [(r.outcome, r.detail) for r in rs][:3])
+                continue
+            r = rs[0]
+            called = set(e.path for e in r.trace if e.path in src)
+            want_called = set(p for p, on in ((beeper_gs[0], ub), (AYGS[0], ua)) if on)
+            chk.check(called == want_called, key + "/devices", "devices sampled: %s; enabled: %s" % (
+                sorted(x.split("::")[-2] for x in called), sorted(x.split("::")[-2] for x in want_called)))
+            for ch, idx in (("left", 0), ("right", 1)):
+                out, bad = [], []
+                leaves(r.ret.fields[idx], 0, out, bad)
+                want = sorted(([("B.l", "B.r")[idx]] if ub else []) + ([("A.l", "A.r")[idx]] if ua else []))
+                ok = not bad and sorted(n for n, _ in out) == want and all(k == 1 for _, k in out)
+                chk.check(ok, key + "/" + ch,
+                          "%s channel is %s: expected the sum of %s with every term multiplied once by the master volume (terms seen: %s%s)" % (
+                              ch, tm.show(r.ret.fields[idx])[:160], want or "nothing", out, "; other: %s" % bad if bad else ""))
+            ls = r.store[("h", "mix")].fields[fi("last_sample")]
+            chk.check(isinstance(ls, Agg) and all(ls.fields[i] is r.ret.fields[i] for i in (0, 1)), key + "/last-sample",
+                      "the remembered last sample (frame padding value) is not the sample returned")
+            chk.count("gen-sample-configs")
+    chk.floor("gen-sample-configs", 4)
 
 
 def fold_float(t):
